@@ -350,7 +350,7 @@ func addLit09(s *hx.Suite, scratch string, idx *int, str string) {
 }
 
 // a string case costs coqc about 1/40 of a Spec case
-const strCost09 = 0.05 // (shards of 1200: the last shards of a run are these, smaller ones end the run sooner)
+var strCost09 = 0.025 // quick tier: 0.05 (shards of 1200: the last shards of a run are these, smaller ones end the run sooner)
 
 // a minimal valid Spec carrying str in every kind of string position where it is valid: annotation value, env value, hook
 // argument / env value / path, mount host path (prefixed and alone) / container path / option / type, device node path / host
@@ -450,6 +450,10 @@ func genC09(r *hx.R, tier, scratch string) (*hx.Suite, error) {
 		
 		Rule: "every Spec is written through Cache.WriteSpec under a .json name, a .yaml name and an extension-less name, read back with cdi.ReadSpec and loaded through the cache; structure stream: valid Specs over pairwise combinations of the 32 optional fields with 1-3 devices and list elements, and numeric extremes of every integer field; scalar stream: strings (code points U+0000..U+3000 sampled in quick / all in thorough, alone and embedded, U+FFFE/U+FFFF, non-BMP, a YAML-sensitive dictionary, newlines and blanks in every position) placed in every kind of string position (scalar member, list element, map value, env value); string stream (no files: json.Marshal of the string, then sigs.k8s.io/yaml UnmarshalStrict of the literal as a member value): every code point U+0000..U+FFFF (quick: in runs of 16 consecutive code points, alone where anything is treated specially and for a random 1/32; thorough: each alone as well), code points embedded in seven contexts, a sample beyond the BMP, random strings over an alphabet of every specially treated character, long strings, U+0085 followed by document indicators, and byte strings that are not valid UTF-8; non-trivial: all cases (each is a distinct Spec x encoding or a distinct string)"}
 	idx := 0
+	strCost09 = 0.025
+	if tier != "thorough" {
+		strCost09 = 0.05
+	}
 	// --- structure: pairwise option vectors
 	vectors := pairwise05(r)
 	nStruct := 10
